@@ -103,3 +103,14 @@ Theorem C12_names_unselected_format_refuted :
   hypb f8_cfg = false /\
   exists a e b f, dump_events f8_cfg = a ++ e :: b /\ In (NFile f) (needs e) /\ ~ name_produced f8_cfg a f.
 Proof. exact f8_refuted. Qed.
+
+(* the proposed repair (notes/C12_fix_1.diff: __build_traffic skips the bindings that are not on a traffic path
+   of the selected format) restores the statement for every configuration, and registers exactly the same traces *)
+Theorem C12_names_repaired : forall c,
+  hyp_rest c = true ->
+  forall a e b q, dump_events (sel_cfg c) = a ++ e :: b -> In q (needs e) ->
+  exists f, q = NFile f /\ name_produced (sel_cfg c) a f.
+Proof. exact repaired_consumed_registered. Qed.
+
+Theorem C12_names_repaired_same_registrations : forall c, registered (sel_cfg c) = registered c.
+Proof. exact registered_sel. Qed.
